@@ -48,7 +48,7 @@ def main():
             return ok, out[-1500:]
         elif demo_other:
             f = demo_other[0]
-            rc, out = sh(("sh " if f.endswith(".sh") else "python3 ") + os.path.join(seed, f), cwd=wt, timeout=900)
+            rc, out = sh(("bash " if f.endswith(".sh") else "python3 ") + os.path.join(seed, f), cwd=wt, timeout=900)
             return rc == 0, out[-1500:]
         return None, "no demo"
     # suite with the patch (without the demo)
